@@ -253,7 +253,8 @@ impl RADAU {
             // Auto-correct the sign of h0 to match integration direction
             h0.abs() * posneg
         } else {
-            1.0e-6 * posneg
+            // (resolvable on the time axis: at |x| >= 1e9 a step of 1e-6 is below an ulp of x)
+            (1.0e-6 as Float).max(64.0 * Float::EPSILON * x.abs()) * posneg
         };
         if h == 0.0 {
             return Err(Error::Config(ConfigError::InvalidStepSize {
